@@ -81,15 +81,15 @@ decreasing_by
   omega
 
 /-- after the loop: a line cut by the size limit does not keep the CR of a CRLF - while more
-    input may follow, a trailing CR goes back to the buffer -/
-def giveBack (r : Bytes × St) : Bytes × St :=
-  if r.1.length > 1 ∧ r.1.getLast? = some CR ∧ (r.2.buf ≠ [] ∨ r.2.todo > 0) then
+    input may follow, a trailing CR goes back to the buffer (`sz`: the effective size) -/
+def giveBack (sz : Nat) (r : Bytes × St) : Bytes × St :=
+  if sz ≤ r.1.length ∧ r.1.length > 1 ∧ r.1.getLast? = some CR ∧ (r.2.buf ≠ [] ∨ r.2.todo > 0) then
     (r.1.dropLast, { r.2 with buf := CR :: r.2.buf })
   else r
 
 /-- `CachedInput.readline(size)` (size already resolved) -/
 def readline (s : St) (size : Nat) : Bytes × St :=
-  giveBack (readlineLoop (min size (s.buf.length + s.todo)) [] s)
+  giveBack (min size (s.buf.length + s.todo)) (readlineLoop (min size (s.buf.length + s.todo)) [] s)
 
 /-- resolve a Python size argument: negative means `block_size` -/
 def resolve (block : Nat) (size : Int) : Nat := if size < 0 then block else size.toNat
